@@ -63,6 +63,29 @@ Theorem C01_body_ends_in_space_only_if : forall cw alnum lbc custom_sp o first l
   o_sep o = SepUnicode /\ (o_bw o = true \/ o_spl o = SplCustom).
 Proof. exact body_ends_in_space_only_if. Qed.
 
+(* ... and for the groups the slow path itself renders as lines (the link between the
+   theorem above and the lines of wrap: Pipeline.slow_path_spec) *)
+Theorem C01_line_body_ends_in_space_only_if : forall cw alnum lbc custom_sp ofit o first line,
+  OfitOK ofit -> SplitterOK custom_sp ->
+  (o_sep o = SepUnicode -> OracleOK (strip line) (lbc (strip line)) /\ NoBreakBetweenSpaces (strip line) (lbc (strip line))) ->
+  exists bws ls,
+    pipeline_words cw alnum lbc custom_sp o first line = Some bws /\
+    slow_path cw alnum lbc custom_sp ofit o first line = Some ls /\
+    ((bws = [] /\ ls = [indent_line o first]) \/
+     (exists groups, concat groups = bws /\ ls = lines_of o first groups 0 /\
+        forall g, In g groups -> ~ no_trailing_sp (body g) ->
+          o_sep o = SepUnicode /\ (o_bw o = true \/ o_spl o = SplCustom))).
+Proof.
+  intros cw alnum lbc custom_sp ofit o first line HO HS Horacle.
+  destruct (slow_path_spec cw alnum lbc custom_sp ofit o first line HO HS) as [bws [ls [E1 [_ [E3 H]]]]].
+  exists bws, ls. split; [exact E1|]. split; [exact E3|].
+  destruct H as [H|[groups [G1 [_ [_ G4]]]]]; [left; exact H|].
+  right. exists groups. split; [exact G1|]. split; [exact G4|].
+  intros g Hg Hn.
+  exact (body_ends_in_space_only_if cw alnum lbc custom_sp o first line bws groups g HS Horacle E1 G1 Hg Hn).
+Qed.
+
+Print Assumptions C01_line_body_ends_in_space_only_if.
 Print Assumptions C01_body_ends_in_space_only_if.
 Print Assumptions C01_wrap.
 Print Assumptions C01_line_of_segment.
